@@ -64,6 +64,9 @@ PLUMBING = {'out', 'output'}           # destination-buffer names: never part of
 IDENTITY_METHODS = {'copy'}            # `x.copy()` = `x` at value level
 
 
+MUTATING = {}                          # callee -> index of the argument it writes (filled from the primitive tables)
+
+
 def lname(n: str) -> str:
     return n + '_' if n in LEAN_KEYWORDS else n
 
@@ -89,7 +92,8 @@ class Prim:
     `args` = sorts of the kept positional arguments, in the Python order; `kw` = keyword name -> position (keywords that may
     be used instead of a position); positional arguments beyond `args` must be plumbing names or string constants."""
 
-    def __init__(self, field, args, ret, kw=None, doc='', elementwise=False, drop_kw=(), pos=None, raises=False):
+    def __init__(self, field, args, ret, kw=None, doc='', elementwise=False, drop_kw=(), pos=None, raises=False, mutates=None):
+        self.mutates = mutates              # index of the (local array) argument the callee writes its result into, when called as a statement
         self.field, self.args, self.ret, self.kw, self.doc = field, list(args), ret, dict(kw or {}), doc
         self.pos = list(pos) if pos is not None else list(range(len(args)))   # Python positions of the kept arguments
         self.drop_kw = set(drop_kw)         # reviewed keywords without value-level meaning (dtype= of a conversion, copy=)
@@ -178,8 +182,10 @@ class Tr:
     def coerce(self, txt, sort, want, node):
         if want is None or sort == want:
             return txt
-        if sort == 'none' and want in ('optK', 'optD'):
+        if sort == 'none' and want in ('optK', 'optD', 'optint'):
             return '(none)'
+        if want == 'optint' and sort in ('int', 'nat', 'natlit'):
+            return f'(some {self.coerce(txt, sort, "int", node)})'
         if (sort, want) in (('K', 'optK'), ('dtype', 'optD')):
             return f'(some {txt})'
         if sort == 'natlit':
@@ -377,6 +383,9 @@ class Tr:
             a, sa = self._E(node.left, env)
             b, sb = self._E(node.right, env)
             sym = '||' if op is ast.BitOr else '&&'
+            if f'{sa}{"|" if op is ast.BitOr else "&"}{sb}' in self.fam.prims:
+                p = self.fam.prims[f'{sa}{"|" if op is ast.BitOr else "&"}{sb}']
+                return f'(P.{p.field} {a} {b})', p.ret
             if sa == 'bool' and sb == 'bool':
                 return f'({a} {sym} {b})', 'bool'
             if {sa, sb} <= {'bool', 'bfld'}:
@@ -468,6 +477,8 @@ class Tr:
             b0, s1 = self._E(r, env)
             if s0 == 'str' and s1 == 'str':
                 return f'(decide ({a0} {self.CMP[op]} {b0}))'
+            if f'{s0}{"!=" if op is ast.NotEq else "=="}{s1}' in self.fam.prims:
+                return f'(P.{self.fam.prims[s0 + ("!=" if op is ast.NotEq else "==") + s1].field} {a0} {b0})'
             if op is ast.NotEq and f'{s0}!=0' in self.fam.prims and isinstance(r, ast.Constant) and r.value == 0 \
                     and not isinstance(r.value, bool):
                 return f'(P.{self.fam.prims[s0 + "!=0"].field} {a0})'
@@ -535,9 +546,11 @@ class Tr:
             if s == 'vec':
                 return f'(List.foldl (fun a b => a + b) 0 {a})', 'K'
         # builtin max / min of two scalars: Python returns the FIRST argument unless the second is strictly larger / smaller
-        if d in ('max', 'min') and len(node.args) == 2 and not node.keywords and 'K' in self.fam.tparams:
+        if d in ('max', 'min') and len(node.args) == 2 and not node.keywords:
             a, sa = self._E(node.args[0], env)
             b, sb = self._E(node.args[1], env)
+            if 'K' not in self.fam.tparams and not {sa, sb} <= {'int', 'nat', 'natlit'}:
+                raise self.err(node, f'{d} on sorts {sa},{sb}')
             tgt = 'K' if 'K' in (sa, sb) else ('int' if {sa, sb} <= {'int', 'nat', 'natlit'} else 'K')
             a, b = self.coerce(a, sa, tgt, node), self.coerce(b, sb, tgt, node)
             if tgt == 'int':
@@ -744,6 +757,10 @@ class Tr:
                     tg = [n.target]
                 elif isinstance(n, ast.Expr) and isinstance(n.value, ast.Call):
                     tg = [kw.value for kw in n.value.keywords if kw.arg == 'out' and isinstance(kw.value, ast.Name)]
+                    if dotted(n.value.func) in MUTATING:
+                        i = MUTATING[dotted(n.value.func)]
+                        if len(n.value.args) > i:
+                            tg = tg + [n.value.args[i]]
                     if isinstance(n.value.func, ast.Attribute) and n.value.func.attr == 'append' and isinstance(n.value.func.value, ast.Name):
                         tg = tg + [n.value.func.value]
                 for t in tg:
@@ -802,6 +819,16 @@ class Tr:
                 x = s.value.func.value.id                                   # `x.append(e)`: `x = x + [e]`
                 e, _ = self.E(s.value.args[0], env, LIST_ELEM[env[x]])
                 return [pad + f'let {lname(x)} := {lname(x)} ++ [{e}]'] + self.S(rest, env, k, ind)
+            if isinstance(s.value, ast.Call) and dotted(s.value.func) in self.fam.prims \
+                    and self.fam.prims[dotted(s.value.func)].mutates is not None and not s.value.keywords:
+                # `kernel(a, b, output)` as a statement: the kernel fills its argument `output` (a local array)
+                p = self.fam.prims[dotted(s.value.func)]
+                tgt = s.value.args[p.pos.index(p.mutates)] if p.mutates in p.pos and len(s.value.args) > p.pos.index(p.mutates) else None
+                if not (isinstance(tgt, ast.Name) and tgt.id in env and tgt.id not in self.drop and env[tgt.id] == p.ret):
+                    raise self.err(s, 'kernel call whose written argument is not a local array of the result sort')
+                asg = ast.Assign(targets=[ast.Name(id=tgt.id, ctx=ast.Store())], value=s.value)
+                ast.copy_location(asg, s); ast.fix_missing_locations(asg)
+                return self.S([asg] + list(rest), env, k, ind)
             if isinstance(s.value, ast.Call):
                 outs = [kw for kw in s.value.keywords if kw.arg == 'out']
                 if len(outs) == 1 and isinstance(outs[0].value, ast.Name) and outs[0].value.id in env \
@@ -859,6 +886,13 @@ class Tr:
             env2 = dict(env)
             env2[s.name] = 'fn:' + s.name
             return [pad + f'let {lname(s.name)} := (fun {bind} =>'] + body + [pad + '  )'] + self.S(rest, env2, k, ind)
+        if isinstance(s, ast.Assign) and len(s.targets) == 1 and isinstance(s.targets[0], ast.Tuple) \
+                and len(s.targets[0].elts) == 1 and isinstance(s.targets[0].elts[0], ast.Name) and isinstance(s.value, ast.Call) \
+                and dotted(s.value.func) == 'np.where' and len(s.value.args) == 1 and 'np.where' in self.fam.prims:
+            # `idx, = np.where(c)`: the indices of the non-zero entries of a 1-D array
+            asg = ast.Assign(targets=[s.targets[0].elts[0]], value=s.value)
+            ast.copy_location(asg, s); ast.fix_missing_locations(asg)
+            return self.S([asg] + list(rest), env, k, ind)
         if isinstance(s, ast.Assign) and len(s.targets) == 1 and isinstance(s.targets[0], ast.Tuple) \
                 and all(isinstance(e, ast.Name) for e in s.targets[0].elts):
             names = [e.id for e in s.targets[0].elts]
@@ -988,7 +1022,7 @@ class Tr:
                 x, positive = nt
                 env_none, env_some = dict(env), dict(env)
                 env_none.pop(x)
-                env_some[x] = {'optK': 'K', 'optD': 'dtype'}[env[x]]
+                env_some[x] = {'optK': 'K', 'optD': 'dtype', 'optint': 'int'}[env[x]]
                 b_then, b_else = (env_none, env_some) if positive else (env_some, env_none)
                 h_none, h_some = f'| none =>', f'| some {lname(x)} =>'
                 heads = (f'(match {lname(x)} with', h_none if positive else h_some, h_some if positive else h_none, ')')
@@ -1065,7 +1099,7 @@ class Tr:
     def _none_test(self, test, env):
         """`x is None` / `x is not None` on an optional scalar -> (x, is_positive)"""
         if isinstance(test, ast.Compare) and len(test.ops) == 1 and isinstance(test.ops[0], (ast.Is, ast.IsNot)) \
-                and isinstance(test.left, ast.Name) and env.get(test.left.id) in ('optK', 'optD') \
+                and isinstance(test.left, ast.Name) and env.get(test.left.id) in ('optK', 'optD', 'optint') \
                 and isinstance(test.comparators[0], ast.Constant) and test.comparators[0].value is None:
             return test.left.id, isinstance(test.ops[0], ast.Is)
         return None
@@ -1394,6 +1428,34 @@ EULER = Family(
         '[].sum()': Prim('lookup_sum', ['tbl', 'vimg'], 'res', doc='`lookup[value].sum()`'),
     }, prop='C15')
 
+LEAN_TYPE.update({'larr': 'L', 'optint': 'Option Int', 'regs': 'Rg', 'carr': 'C'})
+LABELED = Family(
+    'labeled', ['A', 'L', 'D', 'Bf', 'H', 'Sh', 'B', 'Rg', 'C'], '', 'LabeledPrims',
+    {
+        '_as_labeled': Prim('as_labeled', ['arr', 'larr'], 'larr', doc='`_as_labeled(array, labeled, funcname)`: the label map as a C int array (raises when the shapes differ: C09/guards)'),
+        '_convert_labeled': Prim('convert_labeled', ['larr'], 'larr'),
+        '.max()': Prim('max_label', ['larr'], 'int'),
+        '.dtype': Prim('dtype', ['arr'], 'dtype'),
+        '.shape': Prim('shape', ['larr'], 'shp'),
+        'shp!=shp': Prim('shape_ne', ['shp', 'shp'], 'bool'),
+        'np.empty': Prim('empty', ['int', 'dtype'], 'buf', kw={'dtype': 1}, doc='an output array of that many slots'),
+        '_labeled.labeled_sum': Prim('k_sum', ['arr', 'larr', 'buf'], 'buf', mutates=2),
+        '_labeled.labeled_max_min': Prim('k_max_min', ['arr', 'larr', 'buf', 'bool'], 'buf', mutates=2),
+        '_labeled.is_same_labeling': Prim('k_same', ['larr', 'larr'], 'bool'),
+        '.astype()': Prim('astype', ['larr', 'dtype'], 'larr', drop_kw={'copy'}),
+        'const:np.uint32': Prim('uint32', [], 'dtype'),
+        'fullhistogram': Prim('fullhistogram', ['larr'], 'hist'),
+        'np.where': Prim('nonzero_idx', ['carr'], 'regs', doc='`idx, = np.where(conditions)`'),
+        'remove_regions': Prim('remove_regions', ['larr', 'regs', 'bool'], 'larr', kw={'inplace': 2}),
+        'larr!=0': Prim('ne0', ['larr'], 'bimg', doc='`bw != 0`'),
+        'bimg&bimg': Prim('and_', ['bimg', 'bimg'], 'bimg', doc='elementwise `&` of two boolean images'),
+        'borders': Prim('borders', ['bimg', 'nat', 'str'], 'bimg', kw={'mode': 2}),
+    }, prop='C13')
+for _fam in (LABELED,):
+    for _k, _p in _fam.prims.items():
+        if _p.mutates is not None:
+            MUTATING[_k] = _p.mutates
+
 HISTO = Family(
     'histogram thresholds', ['H', 'G'], '', 'HistPrims',
     {
@@ -1451,6 +1513,13 @@ TARGETS = [
     Target('colors.py', 'rgb2lab', [('rgb', 'arr'), ('dtype', 'optD')], 'arr', COLORS2),
     Target('colors.py', 'rgb2sepia', [('rgb', 'fld')], 'fld', COLORS2),
     Target('morph.py', 'circle_se', [('radius', 'K')], 'bfld', CIRCLE),
+    Target('labeled.py', 'labeled_sum', [('array', 'arr'), ('labeled', 'larr'), ('minlength', 'optint')], 'buf', LABELED),
+    Target('labeled.py', 'labeled_max', [('array', 'arr'), ('labeled', 'larr')], 'buf', LABELED),
+    Target('labeled.py', 'labeled_min', [('array', 'arr'), ('labeled', 'larr')], 'buf', LABELED),
+    Target('labeled.py', 'labeled_size', [('labeled', 'larr')], 'hist', LABELED),
+    Target('labeled.py', 'remove_regions_where', [('labeled', 'larr'), ('conditions', 'carr'), ('inplace', 'bool')], 'larr', LABELED),
+    Target('labeled.py', 'is_same_labeling', [('labeled0', 'larr'), ('labeled1', 'larr')], 'bool', LABELED),
+    Target('labeled.py', 'bwperim', [('bw', 'larr'), ('n', 'nat'), ('mode', 'str')], 'bimg', LABELED),
     Target('euler.py', 'euler', [('f', 'arr'), ('n', 'nat'), ('mode', 'str')], 'res', EULER,
            consts={'_euler_lookup8': ('P.lookup8', 'tbl'), '_euler_lookup4': ('P.lookup4', 'tbl'), '_powers': ('P.powers', 'kern')}),
     # `out` is a LOCAL here (the array that fixes the output shape), not a destination-buffer parameter: it is kept
@@ -1461,7 +1530,7 @@ TARGETS = [
     Target('convolve.py', 'wavelet_center', [('f', 'arr'), ('border', 'int'), ('dtype', 'dtype'), ('cval', 'K')], 'arr', WAVE, raises=True),
     Target('convolve.py', 'wavelet_decenter', [('w', 'arr'), ('oshape', 'intlist'), ('border', 'int')], 'arr', WAVE, raises=True),
 ]
-FAMILIES = [MORPH, CONV, THRESH, HISTO, LAPL, RC, SOFT, EXTREMA, STRETCH, COLORS, COLORS2, WAVE, CIRCLE, RESIZE, EULER]
+FAMILIES = [MORPH, CONV, THRESH, HISTO, LAPL, RC, SOFT, EXTREMA, STRETCH, COLORS, COLORS2, WAVE, CIRCLE, RESIZE, EULER, LABELED]
 
 
 def _find_function(tree, name):
